@@ -143,7 +143,7 @@ CLAIMED = {
         design="3.2"),
     "C03": dict(
         text="The real derivative methods (inverse power, Lennard-Jones, displaced even power, the C Coulomb bound "
-             "via the C interpreter; bending potential and dimension 3 in the thorough tier) are executed on "
+             "via the C interpreter; dimensions 1-2, Lennard-Jones in 1 dimension; powers 3 and 4 in the thorough tier) are executed on "
              "ideal-real proxies and proved equal to the forward-mode automatic derivative of the reference energy "
              "along s(t) = s0 - v t e_dir; the Python wrappers of both C potentials are proved to pass the component "
              "along the motion first, the transverse ones after, and to multiply prefactor, both charges and speed "
@@ -188,7 +188,7 @@ CLAIMED = {
              "cell of its position, active unit listed nowhere and its cell recorded, no cell above its cap); after a "
              "boundary event the active unit is in the neighbouring cell.",
         note="One event from initialize-produced occupancies (states reachable only after several liftings are "
-             "covered by the bounded runs when listed in the evidence); ideal reals; N <= 3 (thorough 4).",
+             "covered by the bounded runs when listed in the evidence); ideal reals; N <= 3 (thorough 4 in 1-D; 2 on the 2-D grids).",
         technique="symbolic execution of the real Python code (occupancy + boundary handler), cell decisions forked "
                   "by z3, one validity query per path",
         design="3.11"),
@@ -201,14 +201,14 @@ CLAIMED = {
              "1.0) and the real BasicEventHandler._time_slice_unit in five hypercuboid boxes of different side "
              "orderings: the position is the old one advanced by velocity x elapsed time modulo the box and lies in "
              "the box, the time stamp becomes the event time.",
-        note="Bounded: K committed events per configuration (quick 1-4, thorough 1-5) plus quiet-prefix slices of longer histories (K up to 6 with the first K-1 commits restricted to own-clock handlers: start of run, sampling, end of chain, end of run, mode switch; tables in props/runcheck.py and in the evidence), the shipped 2 (or 1) root nodes, reduced cell grids, list scheduler with an argmin oracle (tied to the schedulers by C06), Time comparisons by exact value (C14), exact 1/n node weights, stub potentials/estimators (any displacement >= 0, any derivative), random draws symbolic; molecules assumed compact in the C12 runs (members within a quarter box of the composite position). Counterexamples are confirmed by concrete re-execution of the real main loop at the model's values.",
+        note="Bounded: K committed events per configuration (quick and thorough 1-4, single-chain configurations 5 in the thorough tier) plus quiet-prefix slices of longer histories (the depth of the thorough tier: K up to 6 with the first K-1 commits restricted to own-clock handlers: start of run, sampling, end of chain, end of run, mode switch; tables in props/runcheck.py and in the evidence), the shipped 2 (or 1) root nodes, reduced cell grids, list scheduler with an argmin oracle (tied to the schedulers by C06), Time comparisons by exact value (C14), exact 1/n node weights, stub potentials/estimators (any displacement >= 0, any derivative), random draws symbolic; molecules assumed compact in the C12 runs (members within a quarter box of the composite position). Counterexamples are confirmed by concrete re-execution of the real main loop at the model's values.",
         technique='bounded symbolic execution of the real main loop (SingleProcessMediator.run built by the real factory from every shipped .ini) with all event orders enumerated by the explorer; one QF_LIRA validity query per property and path',
         design="3.7 / 3.8"),
     "C08": dict(
         text="On the same runs: whenever an interaction or cell-veto handler is committed, every unit of the in-state "
              "its candidate time was computed from (snapshot taken at send_event_time) still has the same velocity "
              "in the global state and lies on the same straight-line trajectory (same position if at rest).",
-        note="Bounded: K committed events per configuration (quick 1-4, thorough 1-5) plus quiet-prefix slices of longer histories (K up to 6 with the first K-1 commits restricted to own-clock handlers: start of run, sampling, end of chain, end of run, mode switch; tables in props/runcheck.py and in the evidence), the shipped 2 (or 1) root nodes, reduced cell grids, list scheduler with an argmin oracle (tied to the schedulers by C06), Time comparisons by exact value (C14), exact 1/n node weights, stub potentials/estimators (any displacement >= 0, any derivative), random draws symbolic; molecules assumed compact in the C12 runs (members within a quarter box of the composite position). Counterexamples are confirmed by concrete re-execution of the real main loop at the model's values.",
+        note="Bounded: K committed events per configuration (quick and thorough 1-4, single-chain configurations 5 in the thorough tier) plus quiet-prefix slices of longer histories (the depth of the thorough tier: K up to 6 with the first K-1 commits restricted to own-clock handlers: start of run, sampling, end of chain, end of run, mode switch; tables in props/runcheck.py and in the evidence), the shipped 2 (or 1) root nodes, reduced cell grids, list scheduler with an argmin oracle (tied to the schedulers by C06), Time comparisons by exact value (C14), exact 1/n node weights, stub potentials/estimators (any displacement >= 0, any derivative), random draws symbolic; molecules assumed compact in the C12 runs (members within a quarter box of the composite position). Counterexamples are confirmed by concrete re-execution of the real main loop at the model's values.",
         technique='bounded symbolic execution of the real main loop (SingleProcessMediator.run built by the real factory from every shipped .ini) with all event orders enumerated by the explorer; one QF_LIRA validity query per property and path',
         design="3.8"),
     "C09": dict(
@@ -216,14 +216,14 @@ CLAIMED = {
              "the multiset of in-state identifier tuples of its running handlers equals what a fresh call of the "
              "tagger yields for the current active state; every other tagger has as many pending events as it would "
              "generate; handler pools are disjoint, complete and never exhausted.",
-        note="Bounded: K committed events per configuration (quick 1-4, thorough 1-5) plus quiet-prefix slices of longer histories (K up to 6 with the first K-1 commits restricted to own-clock handlers: start of run, sampling, end of chain, end of run, mode switch; tables in props/runcheck.py and in the evidence), the shipped 2 (or 1) root nodes, reduced cell grids, list scheduler with an argmin oracle (tied to the schedulers by C06), Time comparisons by exact value (C14), exact 1/n node weights, stub potentials/estimators (any displacement >= 0, any derivative), random draws symbolic; molecules assumed compact in the C12 runs (members within a quarter box of the composite position). Counterexamples are confirmed by concrete re-execution of the real main loop at the model's values.",
+        note="Bounded: K committed events per configuration (quick and thorough 1-4, single-chain configurations 5 in the thorough tier) plus quiet-prefix slices of longer histories (the depth of the thorough tier: K up to 6 with the first K-1 commits restricted to own-clock handlers: start of run, sampling, end of chain, end of run, mode switch; tables in props/runcheck.py and in the evidence), the shipped 2 (or 1) root nodes, reduced cell grids, list scheduler with an argmin oracle (tied to the schedulers by C06), Time comparisons by exact value (C14), exact 1/n node weights, stub potentials/estimators (any displacement >= 0, any derivative), random draws symbolic; molecules assumed compact in the C12 runs (members within a quarter box of the composite position). Counterexamples are confirmed by concrete re-execution of the real main loop at the model's values.",
         technique='bounded symbolic execution of the real main loop (SingleProcessMediator.run built by the real factory from every shipped .ini) with all event orders enumerated by the explorer; one QF_LIRA validity query per property and path',
         design="3.8"),
     "C12": dict(
         text="On the same runs, at every commit and for every composite object: stored velocity == weighted sum of "
              "its members' velocities (absent iff none moves) and stored position advanced to the event time == "
              "weighted barycentre of the members' nearest images advanced to the event time.",
-        note="Bounded: K committed events per configuration (quick 1-4, thorough 1-5) plus quiet-prefix slices of longer histories (K up to 6 with the first K-1 commits restricted to own-clock handlers: start of run, sampling, end of chain, end of run, mode switch; tables in props/runcheck.py and in the evidence), the shipped 2 (or 1) root nodes, reduced cell grids, list scheduler with an argmin oracle (tied to the schedulers by C06), Time comparisons by exact value (C14), exact 1/n node weights, stub potentials/estimators (any displacement >= 0, any derivative), random draws symbolic; molecules assumed compact in the C12 runs (members within a quarter box of the composite position). Counterexamples are confirmed by concrete re-execution of the real main loop at the model's values." + " The real random molecule creators (direction x length products) are replaced by an arbitrary "
+        note="Bounded: K committed events per configuration (quick and thorough 1-4, single-chain configurations 5 in the thorough tier) plus quiet-prefix slices of longer histories (the depth of the thorough tier: K up to 6 with the first K-1 commits restricted to own-clock handlers: start of run, sampling, end of chain, end of run, mode switch; tables in props/runcheck.py and in the evidence), the shipped 2 (or 1) root nodes, reduced cell grids, list scheduler with an argmin oracle (tied to the schedulers by C06), Time comparisons by exact value (C14), exact 1/n node weights, stub potentials/estimators (any displacement >= 0, any derivative), random draws symbolic; molecules assumed compact in the C12 runs (members within a quarter box of the composite position). Counterexamples are confirmed by concrete re-execution of the real main loop at the model's values." + " The real random molecule creators (direction x length products) are replaced by an arbitrary "
              "molecule satisfying the invariant in the runs; that the real DipoleRandomNodeCreator establishes it "
              "(stored position == barycentre of the point masses' nearest images modulo the box, all in the box) "
              "is decided by the creator part on symbolic random draws.",
